@@ -14,7 +14,7 @@
 (***************************************************************************)
 EXTENDS Integers, Sequences, FiniteSets, TLC, Json, IOUtils
 
-CONSTANTS Chains
+CONSTANTS Chains, Lite
 
 Trace == ndJsonDeserialize(IOEnv.TRACE_FILE)
 
@@ -183,6 +183,22 @@ C06_AckRelayerField(k) == (ln(k).ev = "Recv" /\ ln(k).res = "ok") => ln(k).wrote
 C06_RejectNoChange(k) == (ln(k).ev \in {"UpdateClient", "Recv"} /\ ln(k).res # "ok") => Unchanged(k)
 C06_ClientsOnlyByUpdate(k) == \A c \in Chains : clients'[c] # clients[c] => (ln(k).ev \in {"UpdateClient", "Retoggle"} /\ ln(k).res = "ok" /\ ActChain(k) = c)
 
+(* the long-history leg: the operators whose cost does not grow with the square of the history *)
+JudgeLite(k) ==
+  /\ Report(k, "C01.MarksExact", MarksExact')
+  /\ Report(k, "C01.ReceivedWasSent", ReceivedWasSent')
+  /\ Report(k, "C04.SeqAgree", SeqAgree')
+  /\ Report(k, "C04.NoGap", NoGap')
+  /\ Report(k, "C05.OneAckPerReceipt", OneAckPerReceipt')
+  /\ Step(k) =>
+     /\ Report(k, "C01.RecvOnce", C01_RecvOnce(k))
+     /\ Report(k, "C01.DupRejected", C01_DupRejected(k))
+     /\ Report(k, "C01.ReceiptStable", C01_ReceiptStable(k))
+     /\ Report(k, "C04.SeqOnlyBySend", C04_SeqOnlyBySend(k))
+     /\ Report(k, "C05.AckWritten", C05_AckWritten(k))
+     /\ Report(k, "C05.AckStable", C05_AckStable(k))
+     /\ Report(k, "C05.CommitRemovedOnlyByAck", C05_CommitRemovedOnlyByAck(k))
+
 Judge(k) ==
   (* state invariants of XIBC.tla on the real post-state *)
   /\ Report(k, "C03.Conservation", Conservation')
@@ -251,7 +267,7 @@ C_Step(k) ==
 
 Conform(k) == Step(k) => (C_Step(k) \/ PrintT(<<"DRIFT", k, ln(k).ev>>))
 
-TNext == l < Len(Trace) /\ Bind(l + 1) /\ Judge(l + 1) /\ Conform(l + 1)
+TNext == l < Len(Trace) /\ Bind(l + 1) /\ (IF Lite THEN JudgeLite(l + 1) ELSE Judge(l + 1) /\ Conform(l + 1))
 
 TSpec == TInit /\ [][TNext]_tvars
 =============================================================================
